@@ -55,8 +55,37 @@ var reflectNeedMask = func() map[string]uint32 {
 	for _, n := range []string{"Type", "IsZero", "Interface", "CanInterface", "NumMethod", "Set", "Addr"} {
 		m[n] = validKinds
 	}
+	// Equal (go1.20) panics when it has to compare two values of one non-comparable type: slices, maps
+	// and functions always, structs/arrays/interfaces when something inside them is not comparable
+	m["Equal"] = allKinds &^ kmask(reflect.Slice, reflect.Map, reflect.Func, reflect.Struct, reflect.Array, reflect.Interface)
 	return m
 }()
+
+// reflect operations that cannot panic whatever they are applied to (everything else in package
+// reflect either has a model with its precondition or is reported as undecided: fail closed).
+var reflectNeverPanics = map[string]bool{
+	"(reflect.Value).Kind": true, "(reflect.Value).IsValid": true, "(reflect.Value).String": true,
+	"(reflect.Value).CanInterface": true, "(reflect.Value).CanAddr": true, "(reflect.Value).CanSet": true,
+	"(reflect.Value).CanInt": true, "(reflect.Value).CanUint": true, "(reflect.Value).CanFloat": true, "(reflect.Value).CanComplex": true,
+	"(reflect.Value).Comparable": true,
+	"reflect.TypeOf": true, "reflect.ValueOf": true, "reflect.Indirect": true, "reflect.DeepEqual": true,
+	"(reflect.Kind).String": true,
+	"invoke:Kind@reflect.Type": true, "invoke:Name@reflect.Type": true, "invoke:String@reflect.Type": true, "invoke:PkgPath@reflect.Type": true,
+	"invoke:Size@reflect.Type": true, "invoke:Comparable@reflect.Type": true, "invoke:NumMethod@reflect.Type": true,
+	"(reflect.StructTag).Get": true, "(reflect.StructTag).Lookup": true,
+	"(*reflect.MapIter).Next": true, "(*reflect.MapIter).Key": true, "(*reflect.MapIter).Value": true,
+}
+
+// reflectUnmodelled is the interpreter's Unmodelled hook of every client that decides totality: a call
+// into package reflect that has neither a model nor a place in the never-panics list ends the partition
+// undecided, naming the operation.
+func reflectUnmodelled(in *Interp, site ssa.Instruction, name string, args []AVal) {
+	isReflect := strings.HasPrefix(name, "reflect.") || strings.HasPrefix(name, "(reflect.") || strings.HasPrefix(name, "(*reflect.") || strings.HasSuffix(name, "@reflect.Type")
+	if !isReflect || reflectNeverPanics[name] {
+		return
+	}
+	in.cut("reflect operation " + name + " is not in the precondition table (it may panic for some kinds)")
+}
 
 var typeNeedMask = map[string]uint32{
 	"Key":      kmask(reflect.Map),
@@ -99,6 +128,7 @@ func NewWalkEnv(p *Prog) *WalkEnv {
 		w.kset = map[string]uint32{}
 		w.nextN = map[string]int{}
 	}
+	in.Unmodelled = reflectUnmodelled
 	w.install()
 	return w
 }
@@ -262,11 +292,16 @@ func (w *WalkEnv) install() {
 	}
 	// --- reflect.Value methods
 	vmethods := []string{"Kind", "Type", "IsValid", "IsNil", "IsZero", "Len", "Index", "Elem", "Field", "NumField", "MapRange", "MapKeys", "MapIndex",
-		"Interface", "String", "Int", "Uint", "Float", "Bool", "CanInterface", "Bytes"}
+		"Interface", "String", "Int", "Uint", "Float", "Bool", "CanInterface", "Bytes", "Equal"}
 	for _, m := range vmethods {
 		m := m
 		in.Models["(reflect.Value)."+m] = func(in *Interp, site ssa.Instruction, cc *ssa.CallCommon, a []AVal) (AVal, bool) {
 			key := keyOf(a[0])
+			if c, ok := a[0].(Cst); ok && c.V == nil && isReflectValue(c.T) {
+				// the zero Value (reflect.Value{} / an unassigned variable): kind Invalid
+				key = "reflect.Value{}"
+				w.set(key, 1)
+			}
 			switch m {
 			case "Kind":
 				w.site(site, m)
